@@ -98,19 +98,32 @@ def field_cases(run, rng, quick):
             schema = fields.Schema(key=fields.ID(stored=True), num=ftype)
             ix = RamStorage().create_index(schema)
             docs = []
-            with ix.writer() as w:
+            try:
+                w = ix.writer()
                 for i in range(min(len(pool) + 4, 16)):
                     v = rng.choice(pool)
                     docs.append(v)
                     w.add_document(key=u"d%d" % i, num=v)
                 w.add_document(key=u"none")           # a document without a value
-            # a second segment
-            with ix.writer() as w:
-                w.merge = False
+                w.commit()
+                # a second segment
+                w = ix.writer()
                 for i in range(4):
                     v = rng.choice(pool)
                     docs.append(v)
                     w.add_document(key=u"e%d" % i, num=v)
+                w.commit(merge=False)
+            except Exception as ex:
+                # every value of the pool is in the field's documented domain: indexing it must not fail
+                try:
+                    w.cancel()
+                except Exception:
+                    pass
+                cases.append({"idx": {"docs": []}, "qs": [{"q": {"op": "null"}, "obs": [
+                    {"kind": "error", "path": "%s/step%d indexing %r" % (name, step, docs[-1] if docs else None),
+                     "err": type(ex).__name__, "msg": str(ex)[:120]}]}]})
+                metas.append({"plan": [name, step], "nseg": 0, "deleted": 0})
+                continue
             # facts about the encoding (flags)
             try:
                 sortable = [ftype.to_bytes(v) for v in pool]
